@@ -102,6 +102,16 @@ def check_case(ctx, case):
         nb = case['nboot']
         table = rng.integers(0, n, size=(nb, n))
         b = o.export_bootstrap(nb, random_numbers=table)
+        # a table that does not have the documented shape (samples, N) selects something else than `samples` resamplings
+        # of the N configurations: refused, or else exactly the means over the configurations each row selects
+        for nm_, tb_, ns_ in (('narrow', rng.integers(0, max(n // 2, 1), size=(nb, max(n // 2, 1))), nb), ('one-row', table[:1], nb), ('wide', rng.integers(0, n, size=(nb, n + 3)), nb)):
+            try:
+                bb = o.export_bootstrap(ns_, random_numbers=tb_)
+            except Exception:
+                continue
+            exp_ = [float(np.mean([fx[kk] for kk in row])) for row in tb_]
+            if len(bb) != len(tb_) + 1 or not all(close(float(u), v, rtol=1e-10, scale=scale) for u, v in zip(bb[1:], exp_)):
+                probs.append(('violation', 'boot-table-shape', '%s table %r for %d samples of %d configurations accepted, samples are not the means over the selected configurations' % (nm_, tb_.shape, ns_, n)))
         if len(b) != nb + 1 or not close(b[0], float(mean), rtol=1e-13, scale=scale):
             probs.append(('violation', 'boot-entry0', ''))
         for t in range(nb):
